@@ -37,12 +37,15 @@ def report_records(ck, cases, records, pid_note=""):
             continue
         ck.traces += 1
         if has_binding(c["files"]):
-            ck.nontrivial(semrun.src_text(rec) + json.dumps(c["data"]))
+            ck.nontrivial(semrun.src_text(rec) + json.dumps(c["data"]) + json.dumps([(s_.get("data"), s_.get("u"), s_.get("field")) for s_ in c.get("steps", [])]))
         bad_w = [w for w in rec["warn"] if w[1] >= 2]
         if bad_w:
             ck.report({"sig": "diagnostic-on-generated-template", "src": semrun.src_text(rec), "warn": bad_w},
                       "generated well-formed template produced a diagnostic >= Warn: %s\n%s" % (bad_w, semrun.src_text(rec)))
+        creation_wrong = any(p.get("step") == -1 for p in (rec["problems"] or []))
         for p in rec["problems"] or []:
+            if p["what"].startswith("ORACLES-DISAGREE") and creation_wrong:
+                continue      # a consequence of the creation mismatch already reported for this case
             if p["what"].startswith("ORACLES-DISAGREE") or p["what"].startswith("tool:"):
                 raise vlib.ToolError("oracle disagreement / tool problem: %s\n%s" % (json.dumps(p), semrun.src_text(rec)))
             ck.report({"sig": p["what"], "src": semrun.src_text(rec), "data": c["data"], "problem": p,
